@@ -287,7 +287,9 @@ structure DS where
   cols : Array ColSt
   sdict : List (String × List Bytes) := []
   tdict : List (String × List (Option St)) := []
-  dictViolations : Nat := 0        -- direct string encodings of a value already in its dictionary
+  -- specification violations that do not stop decoding: direct string encodings of a value
+  -- already in its dictionary, and values-only multimap encodings of more than 62 pairs
+  dictViolations : Nat := 0
   dictPayload : Nat := 0           -- bytes of string values currently retained in dictionaries
   maxDictPayload : Nat := 0
   deriving Inhabited
@@ -440,6 +442,10 @@ def decodeNode (σ : Schema) : Nat → List (String × Node) → Node → St →
         let (ps, ds) ← decodePairsFull σ fuel env k v kty vty count old ds
         .ok (.mmap ps, ds)
     else do
+      -- specification (MultiMap codec): "Value-only encoding can be used if the number of key-value
+      -- pairs in the MultiMap is less than or equal to 62"; a values-only header against more pairs
+      -- is counted as a violation, decoding continues
+      let ds := if old.length > 62 then { ds with dictViolations := ds.dictViolations + 1 } else ds
       let (ps, ds) ← decodeValuesOnly σ fuel env v (x >>> 1).toNat 0 old ds
       .ok (.mmap ps, ds)
 
@@ -647,6 +653,8 @@ structure Decoded where
   header : Header
   frames : List FrameInfo
   records : List (Nat × St)        -- (root modified mask, record)
+  -- specification violations that did not stop decoding (`DS.dictViolations`): direct string
+  -- encodings of a value already in its dictionary + values-only multimaps of more than 62 pairs
   dictViolations : Nat
   maxDictPayload : Nat
   error : Option String            -- set when decoding stopped early
